@@ -1,6 +1,8 @@
 (* C18 — specification as an executable checker over observed histories (operations issued +
    what was observed after each of them; never model state).
 
+   (state recorded for an upstream that was removed from the lister is outside the live clause: the
+    unknown-condition pass deletes such an upstream as a whole)
    live      : at every step, recorded state (conditions with their quota, counted in-flight) of an
                instance whose last heartbeat is less than 3 s old is still there afterwards (unless
                the step is that instance's own report / acquire, which replaces it)
@@ -20,6 +22,8 @@ Record obs := mkObs {
   oconds : list (key * cnd);              (* stored conditions with Spec.Instance = snd key: quota, label *)
   osums : list (string * Z);              (* allocated sum recorded in the upstream state condition *)
   ocnts : list (string * fcst);           (* per upstream: counted in-flight per instance, running total *)
+  oqc : list (key * Z);                   (* quota of the global-count item of the stored conditions that have one *)
+  osumc : list (string * Z);              (* recorded sum of the global-count item, per upstream *)
 }.
 
 Record ctx := mkCtx {
@@ -29,6 +33,7 @@ Record ctx := mkCtx {
   cs_cnt : list string;                   (* silent instances that must have no counted in-flight *)
   cs_lab : list string;                   (* ... no condition carrying their label *)
   cs_all : list string;                   (* ... no condition at all *)
+  clisted : list string;                  (* upstreams in the lister, from the ops *)
   cprev : obs;
 }.
 
@@ -46,7 +51,7 @@ Definition cnt_of (u i : string) (l : list (string * fcst)) : option Z :=
 Definition live_ok (c : ctx) (t : Z) (o : op) (b : obs) : bool :=
   (forallb (fun p : key * cnd =>
               let u := fst (fst p) in let i := snd (fst p) in
-              if is_live c t i then
+              if (is_live c t i && str_mem u (clisted c))%bool then
                 match o with
                 | Report u' i' _ => if (String.eqb u u' && String.eqb i i')%bool then true
                                     else opt_eqb cnd_eqb (alookup key_eqb (u, i) (oconds b)) (Some (snd p))
@@ -55,7 +60,7 @@ Definition live_ok (c : ctx) (t : Z) (o : op) (b : obs) : bool :=
               else true) (oconds (cprev c))
    && forallb (fun q : string * fcst =>
                  forallb (fun e : string * Z =>
-                            if is_live c t (fst e) then
+                            if (is_live c t (fst e) && str_mem (fst q) (clisted c))%bool then
                               match o with
                               | Acquire u' i' _ => if (String.eqb (fst q) u' && String.eqb (fst e) i')%bool then true
                                                    else opt_eqb Z.eqb (cnt_of (fst q) (fst e) (ocnts b)) (Some (snd e))
@@ -80,7 +85,12 @@ Definition reclaimed_ok (scnt slab sall : list string) (b : obs) : bool :=
 Definition capacity_ok (o : op) (b : obs) : bool :=
   match o with
   | Report u _ _ =>
-      if res_eqb (ores b) ROk then opt_eqb Z.eqb (alookup String.eqb u (osums b)) (Some (sum_quota u (oconds b)))
+      if res_eqb (ores b) ROk then
+        (opt_eqb Z.eqb (alookup String.eqb u (osums b)) (Some (sum_quota u (oconds b)))
+         && match alookup String.eqb u (osumc b) with
+            | Some sc => sc =? sumZ (map snd (filter (fun p : key * Z => String.eqb (fst (fst p)) u) (oqc b)))
+            | None => forallb (fun p : key * Z => negb (String.eqb (fst (fst p)) u)) (oqc b)
+            end)%bool
       else true
   | _ => true
   end.
@@ -107,7 +117,12 @@ Definition next_ctx (c : ctx) (o : op) (b : obs) : ctx :=
               | TickUnknown => fold_left (fun acc i => add i acc) (strip o (cs_cnt c)) (strip o (cs_all c))
               | _ => strip o (cs_all c)
               end in
-  mkCtx t hb' act' scnt slab sall b.
+  let lst := match o with
+             | ClusterGone u => filter (fun x => negb (String.eqb x u)) (clisted c)
+             | ClusterSet u => if str_mem u (clisted c) then clisted c else u :: clisted c
+             | _ => clisted c
+             end in
+  mkCtx t hb' act' scnt slab sall lst b.
 
 (* clause layout: live, reclaimed, capacity *)
 Definition step_ok (c : ctx) (o : op) (b : obs) : list bool :=
@@ -122,6 +137,6 @@ Fixpoint hist_go (c : ctx) (l : list (op * obs)) : list bool :=
   | (o, b) :: r => and_lists (step_ok c o b) (hist_go (next_ctx c o b) r)
   end.
 
-Definition obs0 (u : list string) : obs := mkObs RNil [] [] [] (map (fun x => (x, ([], 0))) u).
+Definition obs0 (u : list string) : obs := mkObs RNil [] [] [] (map (fun x => (x, ([], 0))) u) [] [].
 Definition hist_ok (u : list string) (l : list (op * obs)) : list bool :=
-  hist_go (mkCtx 0 [] [] [] [] [] (obs0 u)) l.
+  hist_go (mkCtx 0 [] [] [] [] [] u (obs0 u)) l.
